@@ -83,14 +83,24 @@ class S:
 INST_SEQTOK = {"__cls__": "S", "fields": {"x": [{"__p__": "str", "v": "ab"}, {"__p__": "str", "v": "cd"}], "y": {"__p__": "str", "v": "q"}}}
 WITNESS_QN = G.HEADER + '''
 @dataclass
+class T:
+    value: Optional[QName] = field(default=None, metadata={"type": "Text"})
+    a: Optional[QName] = field(default=None, metadata={"type": "Attribute"})
+
+@dataclass
 class Q:
     class Meta:
         namespace = "urn:b"
     v: Optional[QName] = field(default=None, metadata={"type": "Element"})
     w: list[QName] = field(default_factory=list, metadata={"type": "Element"})
+    t: Optional[T] = field(default=None, metadata={"type": "Element"})
+    at: Optional[QName] = field(default=None, metadata={"type": "Attribute"})
 '''
 INST_QN = {"__cls__": "Q", "fields": {"v": {"__p__": "QName", "v": "local"},
-                                      "w": [{"__p__": "QName", "v": "{urn:x}a"}, {"__p__": "QName", "v": "{urn:b}b"}]}}
+                                      "w": [{"__p__": "QName", "v": "{urn:x}a"}, {"__p__": "QName", "v": "{urn:b}b"}],
+                                      "t": {"__cls__": "T", "fields": {"value": {"__p__": "QName", "v": "{urn:x}c"},
+                                                                       "a": {"__p__": "QName", "v": "{urn:b}d"}}},
+                                      "at": {"__p__": "QName", "v": "{urn:y}e"}}}
 WITNESS_JOBS = [
     {"src": WITNESS_RICH, "name": "w_rich", "root": "Root", "instances": [INST_RICH], "cases": [
         {"i": 0, "writer": "native", "handler": "native", "config": {"indent": "  "}, "ns_map": {"p": "urn:a"}, "strict": True},
@@ -148,8 +158,9 @@ Import ListNotations.
     txt += D("o_seqtok", "value", seqtok["cases"][0]["value"])
     txt += D("pevs_seqtok", "list pevent", seqtok["cases"][0]["pevents"])
     txt += '''
-(* model `qn`: Q.v : Optional[QName], Q.w : list[QName], class namespace urn:b; instance
-   Q(v=QName('local'), w=[QName('{urn:x}a'), QName('{urn:b}b')]) *)
+(* model `qn`: Q.v : Optional[QName], Q.w : list[QName], Q.t : Optional[T] (T: QName Text value, QName
+   attribute a), Q.at : QName attribute, class namespace urn:b; instance Q(v=QName('local'),
+   w=[QName('{urn:x}a'), QName('{urn:b}b')], t=T(QName('{urn:x}c'), a=QName('{urn:b}d')), at=QName('{urn:y}e')) *)
 '''
     txt += D("u_qn", "universe", qn["universe"])
     txt += D("root_qn", "cls", qn["root"])
